@@ -1435,6 +1435,24 @@ impl ObservationService {
         let observation_request = Self::optic_observation_request(request)?;
         let artifact = Self::observe(runtime, provenance, engine, observation_request)
             .map_err(|err| Self::optic_observation_error(request, err))?;
+        // A provenance coordinate names one recorded commit; a reference whose commit
+        // hash is not the commit recorded at that tick names history that is unavailable.
+        if let EchoCoordinate::Worldline {
+            at: CoordinateAt::Provenance(reference),
+            ..
+        } = &request.coordinate
+        {
+            if artifact.resolved.commit_hash != reference.commit_hash {
+                return Err(Self::optic_obstruction(
+                    request,
+                    OpticObstructionKind::MissingWitness,
+                    Some(WitnessBasis::Missing {
+                        reason: MissingWitnessBasisReason::EvidenceUnavailable,
+                    }),
+                    "provenance coordinate names a commit this history does not contain",
+                ));
+            }
+        }
         let witness_basis = Self::optic_witness_basis(provenance, request, &artifact)?;
         let read_identity = ReadIdentity::new(
             request.optic_id,
